@@ -1,16 +1,16 @@
 #!/bin/bash
 # tools/gtwins.sh <out.log> <set...> : generator refactorings that CHANGE the emitted kernels but not what they compute
-# (/tmp/wt/<set>/_refactor/r*.diff) against every K-based check and the S checks that read generator code.
+# (/verif/twins/<set>/r*.diff) against every K-based check and the S checks that read generator code.
 out="$1"; shift; : > "$out"
 job() {
   diff="$1"; c="$2"
   d=$(mktemp -d /tmp/scr.XXXXXX); cp -r /repo/src "$d/src"
   if ( cd "$d" && patch -p1 -s < "$diff" ) >/dev/null 2>&1; then
     o=$(cd /verif && VERIF_NO_EVIDENCE=1 ./check "$c" --tier quick --src "$d/src" 2>&1); rc=$?
-    echo "== $(echo $diff | sed 's#/tmp/wt/##; s#/_refactor/#/#') $c exit=$rc $(echo "$o" | grep -E 'UNDISCHARGED|ANALYSIS-ERROR' | head -2 | cut -c1-300 | tr '\n' '|')"
+    echo "== $(echo $diff | sed 's#/verif/twins/##') $c exit=$rc $(echo "$o" | grep -E 'UNDISCHARGED|ANALYSIS-ERROR' | head -2 | cut -c1-300 | tr '\n' '|')"
   else echo "== $diff $c patch-failed"; fi
   rm -rf "$d"
 }
 export -f job
-for s in "$@"; do for diff in /tmp/wt/$s/_refactor/r*.diff; do for c in C01 C02 C03 C04 C05 C06 C07 C08 C11 C13 C15 C16; do echo "$diff $c"; done; done; done | xargs -P 4 -L 1 bash -c 'job $0 $1' >> "$out" 2>&1
+for s in "$@"; do for diff in /verif/twins/$s/r*.diff; do for c in C01 C02 C03 C04 C05 C06 C07 C08 C11 C13 C15 C16; do echo "$diff $c"; done; done; done | xargs -P 4 -L 1 bash -c 'job $0 $1' >> "$out" 2>&1
 echo DONE >> "$out"
